@@ -826,14 +826,15 @@ class DictType(Type):
         self_type = function.the_self
         if self_type.is_empty:
             return GeneratorType(True)
-        return GeneratorType(False, widest_type([key for key, value in self_type.element_types]))
+        # (keys of unrelated types have no common type narrower than "anything")
+        return GeneratorType(False, widest_type([key for key, value in self_type.element_types]) or AnyType())
 
     @staticmethod
     def values(tifa, function, callee, arguments, named_arguments, location):
         self_type = function.the_self
         if self_type.is_empty:
             return GeneratorType(True)
-        return GeneratorType(False, widest_type([value for key, value in self_type.element_types]))
+        return GeneratorType(False, widest_type([value for key, value in self_type.element_types]) or AnyType())
 
     @staticmethod
     def items(tifa, function, callee, arguments, named_arguments, location):
@@ -844,7 +845,7 @@ class DictType(Type):
         for key, value in self_type.element_types:
             keys.append(key)
             values.append(value)
-        return GeneratorType(False, TupleType([widest_type(keys), widest_type(values)]))
+        return GeneratorType(False, TupleType([widest_type(keys) or AnyType(), widest_type(values) or AnyType()]))
 
     @staticmethod
     def get(tifa, function, callee, arguments, named_arguments, location):
